@@ -15,7 +15,7 @@
 //               maps the first argument k to the event k + 1000: listeners live at regKey = keyOf + 1000, dispatch is called
 //               with keyOf; a dispatcher that ignores such a policy routes by the raw first argument and finds nobody
 //   -DVH_POLICY=0 default  1 SingleThreading  2 SpinLock
-//   -DVH_MAP=0 default map selection  1 force std::map  2 force std::unordered_map
+//   -DVH_MAP=0 default map selection  1 force std::map  2 force std::unordered_map  3 a flat (sorted vector) user map
 //   -DVH_FILL=<byte> the dispatcher's storage is pre-filled with that byte before construction
 #include "common.h"
 #include <cstring>
@@ -39,6 +39,31 @@
 #endif
 
 namespace {
+
+#if defined(VH_MAP) && VH_MAP == 3
+template <typename K, typename V>
+struct FlatMap
+{
+	using value_type = std::pair<K, V>;
+	using Store = std::vector<value_type>;
+	using iterator = typename Store::iterator;
+	using const_iterator = typename Store::const_iterator;
+	Store items;
+	iterator lower(const K & k) { return std::lower_bound(items.begin(), items.end(), k, [](const value_type & a, const K & b) { return a.first < b; }); }
+	const_iterator lower(const K & k) const { return std::lower_bound(items.begin(), items.end(), k, [](const value_type & a, const K & b) { return a.first < b; }); }
+	V & operator [] (const K & k) {
+		iterator it = lower(k);
+		if(it == items.end() || k < it->first) it = items.insert(it, value_type(k, V()));
+		return it->second;
+	}
+	iterator find(const K & k) { iterator it = lower(k); return (it != items.end() && ! (k < it->first)) ? it : items.end(); }
+	const_iterator find(const K & k) const { const_iterator it = lower(k); return (it != items.end() && ! (k < it->first)) ? it : items.end(); }
+	iterator begin() { return items.begin(); }
+	iterator end() { return items.end(); }
+	const_iterator begin() const { return items.begin(); }
+	const_iterator end() const { return items.end(); }
+};
+#endif
 
 // ---- key types ----------------------------------------------------------------------------
 #if VH_KEY == 0
@@ -126,6 +151,10 @@ struct Policies
 	template <typename K, typename V> using Map = std::map<K, V>;
 #elif VH_MAP == 2
 	template <typename K, typename V> using Map = std::unordered_map<K, V>;
+#elif VH_MAP == 3
+	// a user-supplied Map as doc/policies.md allows it ([], find, end): a sorted vector, whose values MOVE when an entry is
+	// inserted in front of them — a dispatcher must not keep the address of a list across an insertion
+	template <typename K, typename V> using Map = FlatMap<K, V>;
 #endif
 };
 
